@@ -48,12 +48,17 @@ class GzipApp(object):
         return [body]
 
 
-CONFIGS = ["app", "app-gzip", "session", "session-gzip", "cached", "file"]
+CONFIGS = ["app", "app-gzip", "session", "session-gzip", "cached", "file",
+           # open_dods_url (what ServerFunctionResult uses): the whole dataset decoded through a StreamReader
+           "dods-url", "dods-url-gzip", "dods-url-session", "dods-url-session-gzip",
+           # the same application behind a re-chunking hop: sequences are streamed (SequenceProxy.__iter__ searches
+           # `Data:` and decodes over the chunks as they come), arrays are read from the joined body
+           "app-chunk-bytes", "app-chunk-last1", "app-chunk-random", "app-gzip-chunk-bytes", "dods-url-chunk-bytes"]
 
 
 def open_with(config, app, t, d):
     """returns a callable var_tmpl -> raw client value for the top-level variable"""
-    from pydap.client import open_dods_file, open_url
+    from pydap.client import open_dods_file, open_dods_url, open_url
 
     url = "http://localhost:8001/d"
     if config == "app":
@@ -64,6 +69,20 @@ def open_with(config, app, t, d):
         ds = open_url(url, session=X.wsgi_session(app))
     elif config == "session-gzip":
         ds = open_url(url, session=X.wsgi_session(app, gz=True))
+    elif config.startswith("dods-url"):
+        if config == "dods-url":
+            kw = {"application": app}
+        elif config == "dods-url-gzip":
+            kw = {"application": GzipApp(app)}
+        elif config == "dods-url-chunk-bytes":
+            kw = {"application": X.Rechunk(app, "bytes")}
+        else:
+            kw = {"session": X.wsgi_session(app, gz=config.endswith("gzip"))}
+        return open_dods_url(url + ".dods", **kw), "file"
+    elif config.startswith("app-chunk-"):
+        ds = open_url(url, application=X.Rechunk(app, config[len("app-chunk-"):], seed=len(json.dumps(B.pack(d)))))
+    elif config == "app-gzip-chunk-bytes":
+        ds = open_url(url, application=X.Rechunk(GzipApp(app), "bytes"))
     elif config == "cached":
         import requests_cache
 
@@ -83,13 +102,7 @@ def open_with(config, app, t, d):
     return ds, "proxy"
 
 
-def read_file_var(v, t):
-    """values of a dataset returned by open_dods_file (data already decoded)"""
-    if t[0] == "b":
-        return v.data
-    if t[0] == "sq":
-        return list(X.materialise_rows(iter(v.data), t))
-    return [read_file_var(v[c[3] if c[0] == "b" else c[1]], c) for c in t[2]]
+read_file_var = X.read_decoded_var   # values of a dataset returned by open_dods_file / open_dods_url
 
 
 def declared_ok(v, t, probs, path=""):
@@ -186,6 +199,30 @@ def check(ctx, t, d, configs, cases, where):
         except Exception:
             impl = "(err)"
         cases.append(("xdr-dec %s %s" % (ts, hexb(xdr)), impl, meta))
+        # the data part in the chunks the server itself yields (one per block/record), through a StreamReader
+        try:
+            from pydap.handlers.dap import unpack_dap2_data
+            from pydap.lib import StreamReader
+            from pydap.parsers.dds import dds_to_dataset
+            pos, xchunks = 0, []
+            for c in X.get(app, "/d.dods").app_iter:
+                lo = max(len(dds) + 6 - pos, 0)
+                pos += len(c)
+                if lo < len(c) or (pos >= len(dds) + 6 and not c):
+                    xchunks.append(bytes(c[lo:]))
+            it = iter(xchunks)
+            reader = StreamReader(it)
+            values = unpack_dap2_data(reader, dds_to_dataset(dds.decode("ascii")))
+            got = X.canon(t, X.decoded_to_raw(values, t))
+            impl = "(ok %s %s)" % (X.data_sexp(t, got), hexb(bytes(reader.buf) + b"".join(it)))
+            if got != d and cls is None:
+                ctx.oracle_fail("StreamReader over the server's own chunks: other values than the server holds",
+                                {"tmpl": B.pack(t), "data": B.pack(d), "config": "dods-url"}, B.pack(got), B.pack(d))
+        except Exception:
+            impl = "(err)"
+        if b"".join(xchunks) == xdr:
+            cases.append(("xdr-dec-sr %s (%s)" % (ts, " ".join(hexb(c) for c in xchunks)), impl, dict(meta, path="server-chunks")))
+            ctx.tags["server-chunks:%s" % ("1" if len(xchunks) == 1 else "2-4" if len(xchunks) < 5 else "5+")] += 1
     tg = B.tags_of(t)
     for g in set(tg):
         ctx.tags[where + ":" + g] += 1
@@ -207,6 +244,10 @@ def explore(ctx, tier, search=False):
         for nrows in nrows_list:
             d = [X.gen_data(rng, c, nrows=nrows) if c[0] == "sq" else X.gen_data(rng, c) for c in t[2]]
             check(ctx, t, d, ["app", rng.choice(configs_all[1:])], cases, "focused")
+    streaming = [c for c in configs_all if c.startswith("dods-url") or "chunk" in c]
+    for kind, t, d in X.last_variable_datasets(rng, ctx.budget(4, 30)):
+        check(ctx, t, d, ["dods-url", rng.choice(streaming), rng.choice(configs_all)], cases, "last")
+        ctx.tags["last-variable:" + kind] += 1
     n = ctx.budget(700, 12000) * (3 if search else 1)
     for i in range(n):
         t = X.gen_dataset(rng)
@@ -227,7 +268,9 @@ def run(ctx):
                 "inf, -0.0, extremes, empty strings; int8 carried as Int16; ranks 0..3 incl. zero extents; "
                 "structures/grids to depth 3; numpy- and IterData-backed sequences with 0..4 records and one inner "
                 "sequence) x configurations {in-process app, app behind gzip, requests session on a WSGI adapter, "
-                "the same with gzip, CachedSession, saved .dods file}; a dataset is non-trivial when it has an array, "
+                "the same with gzip, CachedSession, saved .dods file, open_dods_url x {app, gzip, requests, requests+gzip, "
+                "1-byte chunks}, open_url behind a re-chunking hop x {1-byte, boundary before the last byte, random, "
+                "gzip+1-byte}}; a family whose last variable makes the decoder's final read zero-length; a dataset is non-trivial when it has an array, "
                 "a container or a sequence; distinct by (declaration, data)")
     ctx.assumptions = ["gzip.decompress(gzip.compress(b)) = b (hypothesis of C01_transport, exercised by the oracle)",
                        "webob/requests/requests_cache plumbing, file I/O and the DDS text round trip (C07) are "
